@@ -2,6 +2,7 @@ package main
 
 import (
 	"fmt"
+	"go/token"
 	"go/types"
 	"sort"
 	"strings"
@@ -327,4 +328,116 @@ func mapName(v ssa.Value) string {
 		}
 	}
 	return pathOf(v)
+}
+
+// pkgFuncs returns the source functions (closures included) of one package.
+func pkgFuncs(c *Ctx, path string) []*ssa.Function {
+	var out []*ssa.Function
+	for _, fn := range c.P.AllFuncs {
+		top := TopLevel(fn)
+		if top.Pkg == nil || top.Pkg.Pkg.Path() != path || fn.Origin() != nil {
+			continue
+		}
+		if fn.Synthetic != "" && fn.Parent() == nil {
+			continue
+		}
+		out = append(out, fn)
+	}
+	return out
+}
+
+// mutexIn builds matchers for Lock/Unlock (names) on a sync.Mutex / sync.RWMutex that is the
+// field muField, or is embedded in the struct that is the field muField.
+func mutexIn(muField *types.Var, names ...string) M {
+	set := map[string]bool{}
+	for _, n := range names {
+		set[n] = true
+	}
+	return M{Desc: muField.Name() + "." + strings.Join(names, "|"), F: func(in ssa.Instruction) bool {
+		cc := getCallCommon(in)
+		if cc == nil {
+			return false
+		}
+		ci := infoOfCommon(cc)
+		if !set[ci.Short] || ci.Recv == nil || !(strings.HasPrefix(ci.QName, "sync.(*Mutex)") || strings.HasPrefix(ci.QName, "sync.(*RWMutex)")) {
+			return false
+		}
+		recv := ci.Recv
+		for i := 0; i < 4; i++ {
+			recv = throughSingleStoreCell(recv)
+			fa, ok := recv.(*ssa.FieldAddr)
+			if !ok {
+				return false
+			}
+			if fieldVar(fa.X.Type(), fa.Field) == muField {
+				return true
+			}
+			recv = fa.X
+		}
+		return false
+	}}
+}
+
+// throughSingleStoreCell: a load from a local cell (a captured local such as `f := &w.flusher`)
+// that is stored exactly once denotes the stored value.
+func throughSingleStoreCell(v ssa.Value) ssa.Value {
+	u, ok := v.(*ssa.UnOp)
+	if !ok || u.Op != token.MUL {
+		return v
+	}
+	var cell ssa.Value = u.X
+	if fv, ok := cell.(*ssa.FreeVar); ok {
+		if b := freeVarBinding(fv); b != nil {
+			cell = b
+		}
+	}
+	al, ok := cell.(*ssa.Alloc)
+	if !ok || al.Referrers() == nil {
+		return v
+	}
+	var only ssa.Value
+	n := 0
+	for _, r := range *al.Referrers() {
+		if st, ok := r.(*ssa.Store); ok && st.Addr == ssa.Value(al) {
+			only = st.Val
+			n++
+		}
+	}
+	if n == 1 {
+		return only
+	}
+	return v
+}
+
+// fieldSites: accesses (address-of) to any of the given fields.
+func fieldSites(desc string, fields ...*types.Var) func(in ssa.Instruction) (string, bool) {
+	set := map[*types.Var]bool{}
+	for _, f := range fields {
+		set[f] = true
+	}
+	return func(in ssa.Instruction) (string, bool) {
+		fa, ok := in.(*ssa.FieldAddr)
+		if !ok {
+			return "", false
+		}
+		if f := fieldVar(fa.X.Type(), fa.Field); f != nil && set[f] {
+			return "access to " + desc + "." + f.Name(), true
+		}
+		return "", false
+	}
+}
+
+// countSites counts protected sites in funcs.
+func countSites(funcs []*ssa.Function, site func(in ssa.Instruction) (string, bool)) int {
+	n := 0
+	for _, fn := range funcs {
+		for _, b := range fn.Blocks {
+			for _, in := range b.Instrs {
+				if _, ok := site(in); ok {
+					n++
+				}
+			}
+		}
+	}
+	return n
 }
